@@ -60,6 +60,9 @@ pub struct Scenario {
     /// provider whose deadline passes after solve returned).
     #[serde(default)]
     pub cancel_during_render: bool,
+    /// capture the solver's internal state after every solve (guarded verif-hooks accessor)
+    #[serde(default)]
+    pub capture_state: bool,
 }
 
 #[derive(Clone, Debug, PartialEq, Serialize, Deserialize)]
@@ -149,6 +152,7 @@ impl Scenario {
             extra_salts: vec![],
             extra: None,
             cancel_during_render: false,
+            capture_state: false,
         }
     }
 }
@@ -261,6 +265,8 @@ impl Outcome {
 
 pub struct RunRecord {
     pub outcomes: Vec<Outcome>,
+    /// internal state after each solve (when `capture_state`)
+    pub dumps: Vec<Option<resolvo::verif_hooks::Dump>>,
     pub log: Vec<Ev>,
     pub stats: SimStats,
     pub trace: Vec<TraceStep>,
@@ -435,6 +441,7 @@ fn drive<RT: AsyncRuntime>(
     core: &Rc<SimCore>,
     outcomes: &mut Vec<Outcome>,
     spans: &mut Vec<(usize, usize)>,
+    dumps: &mut Vec<Option<resolvo::verif_hooks::Dump>>,
 ) {
     for (i, spec) in sc.solves.iter().enumerate() {
         core.solve_idx.set(i);
@@ -454,6 +461,11 @@ fn drive<RT: AsyncRuntime>(
                     .collect::<Vec<_>>(),
             );
         let res = catch_unwind(AssertUnwindSafe(|| solver.solve(problem)));
+        dumps.push(if sc.capture_state && matches!(res, Ok(Ok(_)) | Ok(Err(UnsolvableOrCancelled::Unsolvable(_)))) {
+            Some(solver.verif_dump())
+        } else {
+            None
+        });
         // cancellation does not leak into rendering / bookkeeping, unless the scenario asks for it
         *core.cancel_plan.borrow_mut() = if sc.cancel_during_render {
             Some(CancelPlan {
@@ -557,6 +569,7 @@ pub fn execute_with_salt(sc: &Scenario, salt: u64) -> RunRecord {
     let provider = SimProvider::new(core.clone());
     let mut outcomes = Vec::new();
     let mut spans = Vec::new();
+    let mut dumps = Vec::new();
     let solver = Solver::new(provider);
     let solver = match sc.activity {
         Some((a, d)) => solver.with_activity_params(a, d),
@@ -564,11 +577,11 @@ pub fn execute_with_salt(sc: &Scenario, salt: u64) -> RunRecord {
     };
     match sc.runtime {
         RuntimeKind::NowOrNever => {
-            drive::<NowOrNeverRuntime>(solver, sc, &core, &mut outcomes, &mut spans)
+            drive::<NowOrNeverRuntime>(solver, sc, &core, &mut outcomes, &mut spans, &mut dumps)
         }
         RuntimeKind::Sim => {
             let solver = solver.with_runtime(SimRuntime { core: core.clone() });
-            drive(solver, sc, &core, &mut outcomes, &mut spans)
+            drive(solver, sc, &core, &mut outcomes, &mut spans, &mut dumps)
         }
     }
     let log = core.log.borrow().clone();
@@ -577,6 +590,7 @@ pub fn execute_with_salt(sc: &Scenario, salt: u64) -> RunRecord {
     let cache_mismatch = core.cache_mismatch.borrow().clone();
     RunRecord {
         outcomes,
+        dumps,
         log,
         stats,
         trace,
